@@ -159,7 +159,10 @@ impl<'a> Exec<'a> {
         })
     }
 
-    fn build_or_kv(&mut self, v: &Value, _regs: &Regs) -> Result<Envelope, String> {
+    fn build_or_kv(&mut self, v: &Value, regs: &Regs) -> Result<Envelope, String> {
+        if tag_of(v) == "reg" {
+            return reg(regs, &v[1]).cloned();
+        }
         self.build(v)
     }
 
@@ -950,7 +953,8 @@ impl<'a> Exec<'a> {
                     "drop_body" => drop_pred(e, 100),
                     "second_body" => e.add_assertion(known_values::BODY, raw(self.ctx.atom_cbor(&serde_json::json!(["fn", "k", 2])).map_err(|e| e.0)?)),
                     "retag_subject" => {
-                        let is_ev = e.subject().tagged_cbor().to_cbor_data().windows(3).any(|w| w == [0xd9, 0x9c, 0x5a]);
+                        // the subject IS a leaf holding an event id (#6.40026), not: contains one somewhere
+                        let is_ev = e.subject().as_leaf().map(|c| c.to_cbor_data().starts_with(&[0xd9, 0x9c, 0x5a])).unwrap_or(false);
                         let atom = if is_ev { serde_json::json!(["reqid", 1]) } else { serde_json::json!(["evid", 1]) };
                         e.replace_subject(raw(self.ctx.atom_cbor(&atom).map_err(|e| e.0)?))
                     }
